@@ -210,14 +210,16 @@ func extractAuthorisedViaServerName(content []byte) (spec.ServerName, error) {
 	// Read the member the way the auth rules do (MemberContent, decoded by encoding/json). If it
 	// is repeated, the two readers must agree on which user is named: otherwise the join is
 	// checked against the signature of one server and authorised by the user of another.
+	// The field is a string, as in MemberContent: a JSON null leaves an earlier occurrence in place
+	// and the empty string means that no user is named - exactly what the auth rules see.
 	var c struct {
-		AuthorisedVia *string `json:"join_authorised_via_users_server"`
+		AuthorisedVia string `json:"join_authorised_via_users_server"`
 	}
 	if err := json.Unmarshal(content, &c); err != nil {
 		return "", fmt.Errorf("failed to read authorised server: %w", err)
 	}
-	if c.AuthorisedVia != nil {
-		_, serverName, err := SplitID('@', *c.AuthorisedVia)
+	if c.AuthorisedVia != "" {
+		_, serverName, err := SplitID('@', c.AuthorisedVia)
 		if err != nil {
 			return "", fmt.Errorf("failed to split authorised server: %w", err)
 		}
